@@ -41,11 +41,27 @@ CHECKS = [
                 "from attribute declarations except MSO_CONNECTOR_TYPE (stated). Known findings F19 (7 members sharing a token); "
                 "F21, F23 repaired by fix: commits.",
     },
+    {
+        "property_id": "C10",
+        "technique": "contract-based deductive verification (pyvc over real xmlchemy closures on an abstract element; XSD content models as oracle; z3)",
+        "category": "proof",
+        "text": "For every registered element class x every XSD complex type its tag can have x every child declaration whose generated "
+                "mutators are referenced in src/pptx, the real generated method (_insert_x, _add_x, get_or_add_x, get_or_change_to_x, add_x; "
+                "hand-written overrides included) and the real insert_element_before / remove_all callers are executed symbolically on an "
+                "abstract parent whose children are an unbounded universally quantified sequence valid for the type's content model "
+                "(slots, order, multiplicity extracted from the XSD on every run). Obligations: order and multiplicity still valid, "
+                "required children still present, exactly one child / one group member, unchanged if present. Hand-written insertions "
+                "(CT_GroupShape.add_*, add_chart) likewise. Unbounded in the sibling context: covers siblings only PowerPoint writes.",
+        "note": "Assumed: lxml element API contracts (find/append/addprevious/remove/iteration in document order, pyvc/elem.py); "
+                "BaseOxmlElement.remove_all enters as a summary (its findall loop is not proved); single-occurrence choice slots carry "
+                "the caller obligation 'other members absent' (listed in evidence notes). Declarations whose mutators are never "
+                "referenced carry no obligation (listed). F3, F12, F24, F25 found by these obligations and repaired by fix: commits.",
+    },
 ]
 
 _PENDING = "check not built yet in this session (planned, see DESIGN.md section 5)"
 NOT_APPLICABLE = [
     {"property_id": p, "reason": _PENDING}
-    for p in ["C01", "C02", "C03", "C04", "C05", "C06", "C07", "C08", "C09", "C10", "C12", "C13", "C14", "C15", "C16",
+    for p in ["C01", "C02", "C03", "C04", "C05", "C06", "C07", "C08", "C09", "C12", "C13", "C14", "C15", "C16",
               "C18", "C19"]
 ]
